@@ -70,6 +70,23 @@ TEXT = {
             "Trusted: C02 for packer symmetry; wire values are never None."),
 }
 
+
+# rules added after the first seeded campaign (DESIGN.md section 8); appended to the level text
+ADDED = {
+    "C01": "Also: the is_valid_signature wrappers hand the caller's key, data and signature unchanged to the primitive and return its verdict.",
+    "C03": "Also: listener lists are iterated over a copy and each listener runs in its own containment; foreign decrypt/encrypt calls on the cell path are inside the contained region.",
+    "C04": "Also: a cell for an unknown circuit is never forwarded in clear; AEAD failures of any exception type drop the cell; e2e delivery predicate.",
+    "C05": "Also: bytes_up/bytes_down/last_activity of a routing object change only after the packet authenticated; RoutingObject subclasses hold no class-level mutable state; the neighbour test covers both directions.",
+    "C09": "Also: closed set of sites that refresh last_activity (HEARTBEAT_CALLERS); opened transports are stored on self before the next await.",
+    "C11": "Also: a task's done-callback removes only its own future; TunnelEndpoint/crypto endpoint forward remove_listener like add_listener; sibling rules of C09/C10 on sockets and cache shutdown.",
+    "C12": "Also: walkable/DirtyDict invalidation and `is not None` distinctions on cached empties.",
+    "C13": "Also: an introduced peer is recorded before the response is built.",
+    "C16": "Also: AbstractSignedObject.verify returns is_valid_signature(public_key, plaintext, signature) for the key it was given (no cached verdict, key not rebound).",
+    "C17": "Also: an attribute already attested is refused by type, and the authority is compared as a whole.",
+    "C18": "Also: protocol-shape rules (which operands enter which FP2Value operation in create/verify of the exact-match proof).",
+    "C19": "Also: __exit__ resets the deferral state; a token is inserted before the metadata that refers to it.",
+}
+
 NOT_BUILT_REASON = "check not built yet (build in progress; see DESIGN.md section 3)"
 
 
@@ -83,6 +100,8 @@ def main() -> None:
             continue
         mod = importlib.import_module(f"sa.props.{pid.lower()}")
         tech, text, note = TEXT[pid]
+        if pid in ADDED:
+            text = text + " " + ADDED[pid]
         checks.append({
             "property_id": pid,
             "quick_cmd": f"/venv/bin/python -m sa.check {pid}",
